@@ -3,6 +3,6 @@
 seeds=${@:-1}
 ids=$(python3 -c "import json;print(' '.join(c['property_id'] for c in json.load(open('/verif/MANIFEST.json'))['checks']))")
 for s in $seeds; do for p in $ids; do
-  t0=$(date +%s); VERIF_SEED=$s ./check $p > /tmp/self.$p.$s 2>&1; rc=$?; t1=$(date +%s)
-  echo "seed=$s $p rc=$rc $((t1-t0))s $(grep -c '^VIOLATION' /tmp/self.$p.$s) viol $(grep -c '^KNOWN-FINDING' /tmp/self.$p.$s) kf"
+  t0=$(date +%s); VERIF_SEED=$s ./check $p > /tmp/self.$$.$p.$s 2>&1; rc=$?; t1=$(date +%s)
+  echo "seed=$s $p rc=$rc $((t1-t0))s $(grep -c '^VIOLATION' /tmp/self.$$.$p.$s) viol $(grep -c '^KNOWN-FINDING' /tmp/self.$$.$p.$s) kf"
 done; done
